@@ -1,5 +1,7 @@
 """C02 — An+B."""
+import z3
 from vlib.e1 import Cond
+from vlib import rx2smt as rx
 
 FUNCS = ['soupsieve.css_match.CSSMatch.match_nth', 'soupsieve.css_match.CSSMatch.match_nth_tag_type',
          'soupsieve.css_match._FakeParent', 'soupsieve.css_parser.CSSParser.parse_pseudo_nth',
@@ -40,7 +42,94 @@ CONDS = [
 ]
 
 
+def nth_token_lemma(ctx):
+    """E2: the An+B part of the live :nth-* token patterns accepts exactly the CSS An+B micro-syntax (with whitespace and
+    comments allowed around the sign of B, keywords in any case), over unbounded strings."""
+    import re._constants as c
+    from soupsieve import css_parser as cp
+    D = rx.rng(48, 57)
+
+    def ci(word):
+        return rx.concat([z3.Union(z3.Re(rx.lit(ch.lower())), z3.Re(rx.lit(ch.upper()))) for ch in word])
+    ws = rx.union([z3.Re(rx.lit(x)) for x in (' ', '\t', '\n', '\r', '\f')])
+    notstar = z3.Intersect(rx.ALLCHAR, z3.Complement(z3.Re(rx.lit('*'))))
+    notstarslash = z3.Intersect(rx.ALLCHAR, z3.Complement(z3.Union(z3.Re(rx.lit('*')), z3.Re(rx.lit('/')))))
+    star = z3.Re(rx.lit('*'))
+    comment = z3.Concat(z3.Re(rx.lit('/*')), z3.Star(z3.Union(notstar, z3.Concat(z3.Plus(star), notstarslash))),
+                        z3.Plus(star), z3.Re(rx.lit('/')))
+    wsc = z3.Star(z3.Union(ws, comment))
+    sign = z3.Union(z3.Re(rx.lit('+')), z3.Re(rx.lit('-')))
+    n = ci('n')
+    ref = z3.Union(
+        z3.Concat(z3.Option(sign), z3.Plus(D)),
+        z3.Concat(z3.Option(sign), z3.Star(D), n, z3.Option(z3.Concat(wsc, sign, wsc, z3.Plus(D)))),
+        ci('even'), ci('odd'))
+    x = z3.String('x')
+    for tok in cp.CSSParser.css_tokens:
+        if not isinstance(tok, cp.SpecialPseudoPattern):
+            continue
+        for name, pat in sorted(set((p.name, p.re_pattern) for p in tok.patterns.values()), key=lambda t: t[0]):
+            if not name.startswith('pseudo_nth'):
+                continue
+            tr = rx.Translation(pat)
+            gname = 'nth_child' if name.endswith('child') else 'nth_type'
+            gid = pat.groupindex[gname]
+            found = []
+
+            def find(nodes):
+                for op, arg in nodes:
+                    if op is c.SUBPATTERN:
+                        if arg[0] == gid:
+                            found.append(arg[3])
+                        find(arg[3])
+                    elif op is c.BRANCH:
+                        for a in arg[1]:
+                            find(a)
+                    elif op in (c.MAX_REPEAT, c.MIN_REPEAT):
+                        find(arg[2])
+            find(tr.tree)
+            lang = tr.go(rx.EPS, found[0], rx.EPS, True)
+            s = z3.Solver()
+            s.add(z3.InRe(x, z3.Union(z3.Intersect(lang, z3.Complement(ref)), z3.Intersect(ref, z3.Complement(lang)))))
+            s.add(z3.Length(x) <= 24)
+            r = ctx.z3_check(s, name, 60000)
+            ob = dict(engine='E2/z3', name=f'group {gname} of the live {name} token == CSS An+B micro-syntax (len <= 24)',
+                      verdict={'unsat': 'exhaustive', 'sat': 'counterexample'}.get(r, 'inconclusive'), inexact=tr.inexact[:2])
+            if r == 'sat':
+                val = rx.decode(s.model().eval(x, model_completion=True))
+                ob['model'] = val
+                real = cp.RE_NTH.fullmatch(val) is not None or val.lower() in ('even', 'odd')
+                pname = ':nth-child(' if gname == 'nth_child' else ':nth-of-type('
+                try:
+                    import soupsieve as sv
+                    sv.compile(pname + val + ')')
+                    accepted = True
+                except Exception:  # noqa: BLE001
+                    accepted = False
+                import re as _re
+                refpy = _re.fullmatch(r'(?i)[-+]?[0-9]+|[-+]?[0-9]*n(?:(?:[ \t\n\r\f]|/\*(?:[^*]|\*+[^*/])*\*+/)*[-+](?:[ \t\n\r\f]|/\*(?:[^*]|\*+[^*/])*\*+/)*[0-9]+)?|even|odd', val) is not None
+                ctx.report(dict(engine='E2', fn='nth_token_lemma', args=[name, val], args_repr=[repr(name), repr(val)],
+                                detail=f'{pname}{val}) compiles: {accepted}; the An+B micro-syntax accepts it: {refpy}'),
+                           accepted != refpy)
+            ctx.obligation(**ob)
+
+
+def replay(rec):
+    import re as _re
+    import soupsieve as sv
+    name, val = rec['args']
+    pname = ':nth-child(' if name.endswith('child') else ':nth-of-type('
+    try:
+        sv.compile(pname + val + ')')
+        accepted = True
+    except Exception:  # noqa: BLE001
+        accepted = False
+    refpy = _re.fullmatch(r'(?i)[-+]?[0-9]+|[-+]?[0-9]*n(?:(?:[ \t\n\r\f]|/\*(?:[^*]|\*+[^*/])*\*+/)*[-+](?:[ \t\n\r\f]|/\*(?:[^*]|\*+[^*/])*\*+/)*[0-9]+)?|even|odd', val) is not None
+    return accepted != refpy, f'compile accepts: {accepted}, micro-syntax accepts: {refpy}'
+
+
 def run(ctx):
+    nth_token_lemma(ctx)
     ctx.bounds.append('see per-obligation bounds; |a|,|b| beyond the stated range are outside the claim')
     ctx.assume('SelectorNth is replaced by a duck-typed stand-in with the same attributes (a, n, b, of_type, last, '
                'selectors) so that the IR constructor does not hash (realise) symbolic integers; match_nth reads only '
